@@ -56,4 +56,5 @@ aff562d C11
 4ca5041 C06
 cc5a9fa C14 C08
 5573dd6 C06 C05
+afa283c C08
 LIST
